@@ -131,6 +131,7 @@ func checkSend(x *model.Exec, tm *thrModel, s *bgen.SendStep) (string, bool, []s
 		}
 	}
 	obsComplete := map[string]int{}
+	obsCompleteSink := map[string]int{} // ... of which by a node instance whose Type() is sink (an id's type may change between registrations)
 	obsErrs := map[error]int{}
 	for _, c := range calls {
 		if c.SendID != lin.SendID {
@@ -139,10 +140,11 @@ func checkSend(x *model.Exec, tm *thrModel, s *bgen.SendStep) (string, bool, []s
 		switch {
 		case c.Err != nil:
 			obsErrs[c.Err]++
-		case c.Out == nil:
+		case c.Out == nil, lastKeys[c.Node.Name+"@"+c.InLineage]:
 			obsComplete[c.Node.ID]++
-		case lastKeys[c.Node.Name+"@"+c.InLineage]:
-			obsComplete[c.Node.ID]++
+			if c.Node.T == eventlogger.NodeTypeSink {
+				obsCompleteSink[c.Node.ID]++
+			}
 		}
 	}
 	gotC := multiset(st.Complete())
@@ -155,14 +157,24 @@ func checkSend(x *model.Exec, tm *thrModel, s *bgen.SendStep) (string, bool, []s
 		return fmt.Sprintf("Warnings contains an error (%T) which no node returned during this Send, or more often than it was returned", w), false, nil
 	}
 	// complete-sinks = exactly the sink entries of complete
-	wantS := map[string]int{}
+	// (which completing instances are sinks is taken from the instances: an id may have been re-registered with another type)
 	for id, n := range gotC {
-		if bgen.IntendedType(id) == int(eventlogger.NodeTypeSink) {
-			wantS[id] = n
+		sinks, all := obsCompleteSink[id], obsComplete[id]
+		lo, hi := n-(all-sinks), sinks // at least the entries that cannot be non-sinks, at most the sink completions
+		if lo < 0 {
+			lo = 0
+		}
+		if hi > n {
+			hi = n
+		}
+		if gotS[id] < lo || gotS[id] > hi {
+			return fmt.Sprintf("CompleteSinks() %s is not the sink sub-multiset of Complete() %s (node %q: %d of its %d completions were by a sink)", fmtMS(gotS), fmtMS(gotC), id, sinks, all), false, nil
 		}
 	}
-	if !eqMS(gotS, wantS) {
-		return fmt.Sprintf("CompleteSinks() %s is not the sink sub-multiset %s of Complete() %s", fmtMS(gotS), fmtMS(wantS), fmtMS(gotC)), false, nil
+	for id := range gotS {
+		if gotC[id] == 0 {
+			return fmt.Sprintf("CompleteSinks() %s lists %q which Complete() %s does not", fmtMS(gotS), id, fmtMS(gotC)), false, nil
+		}
 	}
 	allSuccess := true
 	if live {
